@@ -1,5 +1,6 @@
 import S3V.Thm.SigV4Tamper
 import S3V.Thm.SigV4Perm
+import S3V.Thm.SigV4EdgeBlanks
 /-!
 # C05 — SigV4 header authentication accepts exactly the correctly signed requests (property theorems only)
 
@@ -7,7 +8,8 @@ Model: `S3V/Model/SigV4.lean` (literal mirror of `sig_v4/*`, `http/ordered_*`, `
 specification: `S3V/Spec/SigV4.lean` (from the AWS documents). `sha256hex` and `hmac` are arbitrary functions in
 every statement. Quantifiers: all requests (any byte strings, any number of headers / parameters), no size bound.
 State of the code: with the repairs b7c08fd (canonical headers collapse space runs and join repeated lines), 4011296
-(algorithm token and scope date checked) and 10af2bf (a listed header must be in the request). The theorems marked
+(algorithm token and scope date checked), 10af2bf (a listed header must be in the request) and d453cd3 (`x-amz-date` and
+`x-amz-content-sha256` are parsed with their edge SP / HTAB removed: `trimOws`). The theorems marked
 `_partial` exclude, by the explicit decidable predicates `wf` / `wfHeaderAuth`, what still deviates or lies outside the
 specification's domain: duplicate query names whose values do not ascend (OPEN class `sigv4-dup-query-unsorted`, kept
 for compatibility with a deployed SDK), and `SignedHeaders` lists that repeat a name or list `authorization` (the
@@ -35,7 +37,9 @@ theorem C05_canon_impl_eq_spec_partial (sha256hex : Bytes → Bytes) (onMissing 
 /-- the verdict logic, exactly: `v4_check_header_auth` accepts, and attributes the request to the access key,
     region and service of the credential, iff the `Authorization` header parses, the service is s3/sts, the payload
     mode is admissible, the key is known, `x-amz-date` parses, and the recomputed signature is the presented one
-    (no well-formedness hypothesis: this is about the model alone) -/
+    (no well-formedness hypothesis: this is about the model alone). Since d453cd3 both `x-amz-content-sha256`
+    (`HeaderChecks.mode`, through `extractContentSha`) and `x-amz-date` (`HeaderChecks.date`) are read with the blanks
+    (SP, HTAB) at either end of the value removed. -/
 theorem C05_accept_conditions (sha256hex : Bytes → Bytes) (hmac : Bytes → Bytes → Bytes)
     (look : Bytes → Option Bytes) (c : Ctx) (ak region service : Bytes) :
     v4CheckHeaderAuth sha256hex hmac (some look) c = .accept ak region service ↔
@@ -142,6 +146,25 @@ theorem C05_edge_whitespace_invariant (ws₁ ws₂ v : Bytes) (h₁ : ∀ c ∈ 
     (h₂ : ∀ c ∈ ws₂, SigV4Spec.isWs c = true) : SigV4Spec.trimAll (ws₁ ++ v ++ ws₂) = SigV4Spec.trimAll v :=
   trimAll_edge ws₁ ws₂ v h₁ h₂
 
+/-- (repair d453cd3) blanks at the edges of header values never reach the verdict of `v4_check_header_auth`: for every
+    context, every hash, MAC and key table, rewriting the header values line by line in a way that neither `trim_ows`
+    (`x-amz-date`, `x-amz-content-sha256`) nor the `trim()` of the canonical headers sees, and that leaves the
+    `authorization` line alone (`EdgeRewrite`), gives the same verdict — acceptance, attribution and error code alike -/
+theorem C05_edge_rewrite_verdict_invariant (sha256hex : Bytes → Bytes) (hmac : Bytes → Bytes → Bytes)
+    (lookup : Option (Bytes → Option Bytes)) (c : Ctx) (pad : Bytes → Bytes → Bytes) (h : EdgeRewrite pad) :
+    v4CheckHeaderAuth sha256hex hmac lookup (c.padded pad) = v4CheckHeaderAuth sha256hex hmac lookup c :=
+  header_verdict_padded sha256hex hmac lookup c h
+
+/-- in particular the former finding class `sigv4-edge-whitespace-amz-header` is closed for all requests: any run of
+    SP / HTAB put before and after the values of the `x-amz-date` and `x-amz-content-sha256` lines (`padAmz`) leaves the
+    verdict unchanged -/
+theorem C05_amz_header_edge_blanks_invariant (sha256hex : Bytes → Bytes) (hmac : Bytes → Bytes → Bytes)
+    (lookup : Option (Bytes → Option Bytes)) (c : Ctx) (ws₁ ws₂ : Bytes) (h₁ : ∀ b ∈ ws₁, b = 32 ∨ b = 9)
+    (h₂ : ∀ b ∈ ws₂, b = 32 ∨ b = 9) :
+    v4CheckHeaderAuth sha256hex hmac lookup (c.padded (padAmz ws₁ ws₂)) = v4CheckHeaderAuth sha256hex hmac lookup c :=
+  header_verdict_padded sha256hex hmac lookup c
+    (padAmz_edgeRewrite ws₁ ws₂ (fun b hb => by simpa [isOws] using h₁ b hb) (fun b hb => by simpa [isOws] using h₂ b hb))
+
 /-- percent-spelling: the code canonicalises the DEcoded path and parameters, and decoding undoes the canonical
     spelling, so every spelling that decodes to the same bytes yields the same request -/
 theorem C05_percent_spelling_invariant (keepSlash : Bool) (s : Bytes) :
@@ -167,6 +190,12 @@ def exampleCtx : Ctx :=
     body := [], bodyOnce := true, contentLength := none, decodedContentLength := none }
 
 example : orderedHeaders exampleCtx.hs = some exampleCtx.hs ∧ wfHeaderAuth exampleCtx = true := by decide
+
+/-- the rewrite of `C05_amz_header_edge_blanks_invariant` on that context: the blanks are really there, on the two lines -/
+example : (exampleCtx.padded (padAmz [9] [32, 32])).hs =
+    [(b!"authorization", b!"AWS4-HMAC-SHA256 Credential=AK/20130524/us-east-1/s3/aws4_request, SignedHeaders=host;x-amz-content-sha256;x-amz-date, Signature=00"),
+     (b!"x-amz-content-sha256", b!"\tUNSIGNED-PAYLOAD  "), (b!"x-amz-date", b!"\t20130524T000000Z  ")] ∧
+    (∀ b ∈ ([9] : Bytes), b = 32 ∨ b = 9) ∧ (∀ b ∈ ([32, 32] : Bytes), b = 32 ∨ b = 9) := by decide
 example : wf { exampleReq with signed := [b!"host", b!"x-absent"] } = false := by decide
 example : wf { exampleReq with qs := [(b!"prefix", b!"c"), (b!"prefix", b!"a/b")] } = false := by decide
 
